@@ -96,6 +96,17 @@ def check_search(ctx, case):
                 ctx.fail("group {} of {!r} on {!r} has span ({}, {}) = {!r} but is returned as {!r}".format(
                     i, pat, wd, a, b, data[a:b], txt), case)
                 break
+    # the same compiled pattern used on another target in between must not change the answer
+    if n >= 2:
+        def view(mm):
+            return None if mm is None else [mm.span(i) for i in range(rx.regex.groups + 1)]
+        other = gen.rot(wd, 1 + ctx.rng.randrange(n - 1))
+        rx.search(impl.search_target(other, kind), linear=linear)
+        rx.search(impl.search_target(wd[::-1], kind), linear=linear)
+        again = rx.search(impl.search_target(wd, kind), pos=pos, linear=linear, **kw)
+        if view(again) != view(m):
+            ctx.fail("the same DNARegex object answers {} for a target it answered {} for before it was used on "
+                     "other targets".format(view(again), view(m)), case)
     ctx.note("match" if m is not None else "nomatch")
     if m is not None and m.end() > n:
         ctx.note("match-crosses-origin")
